@@ -1,6 +1,6 @@
 ---------------------------- MODULE StorageCrashGen ----------------------------
 EXTENDS StorageCrash, Json
 Tok(n) == IF n = 0 THEN "empty" ELSE IF n = 5 THEN "short" ELSE IF n = 40 THEN "mid" ELSE "long"
-EmitInit == pc = 1 /\ ~crashed => PrintT(<<"BEH", ToJson(<<[old |-> IF old.absent THEN "absent" ELSE Tok(old.len), new |-> Tok(new)]>>)>>)
-OnlyInit == pc = 1 /\ ~crashed
+EmitInit == pc = 1 /\ ~crashed /\ phase = "first" => PrintT(<<"BEH", ToJson(<<[old |-> IF old.absent THEN "absent" ELSE Tok(old.len), new |-> Tok(new)]>>)>>)
+OnlyInit == pc = 1 /\ ~crashed /\ phase = "first"
 =======================================================================
